@@ -342,6 +342,8 @@ class Parser:
                 return ("if", c, a, b)
             if p in ("true", "false"): self.next(); return ("bool", p == "true")
             if p == "match": return self.match_expr()
+            if p == "unsafe" and self.peek(1) == "{" and getattr(self, "allow_continue", False):      # phase 4h (app mode only): a skeleton table must give it a reading
+                self.next(); return ("unsafeexpr", self.block())
             if p in ("loop", "while", "for", "unsafe", "move", "return", "break"): self.fail(f"`{p}` in expression position")
             segs = [self.ident()]
             while self.accept("::"): segs.append(self.ident())
